@@ -841,6 +841,16 @@ func registerMisc() {
 					np = len(ps)
 				}
 			}
+			if pf, ok := hookFns["raftpeers"]; ok {
+				// the Context of every bootstrap peer, as the caller passed it
+				ctxs := []value{}
+				if np > 0 {
+					for _, p := range a[1].([]value) {
+						ctxs = append(ctxs, p.(structure)[1])
+					}
+				}
+				call(fr.i, fr, 0, pf, []value{ctxs})
+			}
 			return call(fr.i, fr, 0, f, []value{kind, a[0], np})
 		}
 	}
@@ -849,11 +859,43 @@ func registerMisc() {
 
 	// gRPC: no network in the model; dialling fails (clients that harnesses need are
 	// harness implementations of the generated client interfaces)
-	ext("google.golang.org/grpc.Dial", func(fr *frame, a []value) value {
-		return tuple{(*value)(nil), mkErrorValue(fr.i, "grpc: dial unavailable in the model")}
+	// With a verifrt.Hook("grpc-dial", func(target string) bool) the harness
+	// decides reachability; calls on the returned connection are routed to
+	// the hooks "grpc-stream" / "grpc-invoke" (in-memory transport).
+	grpcDial := func(argIdx int) externalFn {
+		return func(fr *frame, a []value) value {
+			f, ok := hookFns["grpc-dial"]
+			if !ok {
+				return tuple{(*value)(nil), mkErrorValue(fr.i, "grpc: dial unavailable in the model")}
+			}
+			target, _ := a[argIdx].(string)
+			if !truth(call(fr.i, fr, 0, f, []value{target}), "grpc-dial hook result") {
+				return tuple{(*value)(nil), mkErrorValue(fr.i, "grpc: target unreachable in the model")}
+			}
+			var cell value = zero(mustDeref(fr.fn.Signature.Results().At(0).Type()))
+			p := &cell
+			grpcConnTarget[p] = target
+			return tuple{p, iface{}}
+		}
+	}
+	ext("google.golang.org/grpc.Dial", grpcDial(0))
+	ext("google.golang.org/grpc.DialContext", grpcDial(1))
+	ext("(*google.golang.org/grpc.ClientConn).Close", func(fr *frame, a []value) value { return iface{} })
+	ext("(*google.golang.org/grpc.ClientConn).NewStream", func(fr *frame, a []value) value {
+		f, ok := hookFns["grpc-stream"]
+		if !ok {
+			panic(engineError{"grpc ClientConn.NewStream reached without a verifrt.Hook(\"grpc-stream\", ...)"})
+		}
+		p, _ := a[0].(*value)
+		return call(fr.i, fr, 0, f, []value{grpcConnTarget[p], a[3]})
 	})
-	ext("google.golang.org/grpc.DialContext", func(fr *frame, a []value) value {
-		return tuple{(*value)(nil), mkErrorValue(fr.i, "grpc: dial unavailable in the model")}
+	ext("(*google.golang.org/grpc.ClientConn).Invoke", func(fr *frame, a []value) value {
+		f, ok := hookFns["grpc-invoke"]
+		if !ok {
+			panic(engineError{"grpc ClientConn.Invoke reached without a verifrt.Hook(\"grpc-invoke\", ...)"})
+		}
+		p, _ := a[0].(*value)
+		return call(fr.i, fr, 0, f, []value{grpcConnTarget[p], a[2], a[3], a[4]})
 	})
 
 	// server start-up: no sockets, no gRPC server in the model
